@@ -100,10 +100,10 @@ PROPS = {
     "C05": {
         "title": "Element-wise arithmetic, comparison, min/max and user-defined maps are pointwise",
         "rules": [on_program(rules_guard.rule_div_zero), on_program(rules_guard.rule_sub_infinity), on_program(rules_sibling.rule_mirror_simplify), rules_ftype.rule_mix_arith,
-                  on_program(rules_level.rule_terminal_type), on_program(rules_level.rule_next_level), on_program(rules_level.rule_fold_zeros)],
+                  on_program(rules_level.rule_terminal_type), on_program(rules_level.rule_next_level), on_program(rules_level.rule_fold_zeros), on_program(rules_dispatch.rule_range_types)],
         "explanation": STRUCTURAL + ". C05: partiality clause (every `/` and `%` on operand values is dominated by a zero test throwing DIVIDE_BY_ZERO; x - infinity throws SUBTRACT_INFINITY), "
                        "mirror clause (for a commutative operation the two shortcut predicates simplifiesToFirstArg/SecondArg are mirror images), cross-forest clause (handles are used only with their own forest), "
-                       "range clause (a terminal built from a truth value carries the result forest's terminal type unless the operation is all-BOOLEAN) the level discipline of the recursion (set-style next level only from non-negative levels), and the range-scan clause (a scalar fold that skips zero children is a plain sum with 0 for handle 0; minimum / maximum scans visit every child — defect D12).",
+                       "range clause (a terminal built from a truth value carries the result forest's terminal type unless the operation is all-BOOLEAN) the level discipline of the recursion (set-style next level only from non-negative levels), and the range-scan clause (a scalar fold that skips zero children is a plain sum with 0 for handle 0; minimum / maximum scans visit every child — defect D12), and the factory clause (value-typed templates are instantiated with the scalar type of the case they are constructed under).",
         "assumptions": ["pointwise values and the correctness of the shortcut predicates themselves are not decided", "only policies with commutes()==true are subject to the mirror law"],
         "technique": "must-check dominance over clang CFGs; mirror-image comparison of twin predicates after operand renaming; forest-indexed handle typing; constructor-signature rule for terminals; sign typing of level locals",
         "level_text": "exact static rule check over every instantiation of the arithmetic policies in operations/arith_*.cc; decides the partiality, mirror and cross-forest clauses, not the pointwise values",
@@ -159,9 +159,9 @@ PROPS = {
     },
     "C10": {
         "title": "Copying between forests preserves the function",
-        "rules": [rules_ftype.rule_mix_copy, callers_for("C10"), on_program(rules_level.rule_next_level)],
+        "rules": [rules_ftype.rule_mix_copy, callers_for("C10"), on_program(rules_level.rule_next_level), on_program(rules_dispatch.rule_copy_factory)],
         "explanation": STRUCTURAL + ". C10: cross-forest clause — copy_MT, copy_EV_fast, copy_EV<…> read only the source forest and build only in the target forest (copy_inforest: one forest by construction); "
-                       "every value placed in the copy comes from the conversion of a source value, never from the target's transparent edge (who-may-call table for getTransparentEdge / getTransparentNode); level discipline of the copy recursion.",
+                       "every value placed in the copy comes from the conversion of a source value, never from the target's transparent edge (who-may-call table for getTransparentEdge / getTransparentNode); level discipline of the copy recursion; the factory constructs each copy implementation only for the forest pairs it was written for (same object / MT source / same edge operation and range / matching edge type).",
         "assumptions": ["scalar conversions and round-trip identity are not decided", "terminal handles are treated as forest independent"],
         "technique": "forest-indexed typing of node handles over clang CFGs; who-may-call table over the resolved call graph; sign typing of level locals",
         "level_text": "exact static rule check over operations/copy.cc (all instantiations) and the callers of the transparent-edge getters; decides the cross-forest, value-provenance and level-sign clauses only",
